@@ -514,12 +514,13 @@ class Dict(dict, base.Symbolic, pg_typing.CustomTyping):
         value_spec=self._value_spec,
         allow_partial=self._allow_partial,
         accessor_writable=self._accessor_writable,
-        sealed=self._sealed,
         onchange_callback=self._onchange_callback,
         # NOTE(daiyip): parent and root_path are reset to empty
         # for copy object.
         root_path=None,
-        pass_through=True)
+        # NOTE: the sealed flag is copied per node (the cloned children carry
+        # their own), instead of sealing the whole copy.
+        pass_through=True).sym_seal(self._sealed)
 
   def _update_children_paths(
       self, old_path: utils.KeyPath, new_path: utils.KeyPath
